@@ -285,7 +285,12 @@ loop:
 					numSeries += len(r[i].Samples)
 				}
 
-				series = make([]promql.Series, numSeries)
+				// Grow the result, keeping the points collected from earlier batches.
+				if len(series) < numSeries {
+					grown := make([]promql.Series, numSeries)
+					copy(grown, series)
+					series = grown
+				}
 
 				for _, vector := range r {
 					for i := range vector.Samples {
